@@ -1264,8 +1264,80 @@ def t_line_terminated(facts, res, tier):
             res.fail("T-LINE-TERMINATED:process:include-last-line", facts.where(fn, n),
                      "the newline after a line that lacks one is only written when the source line had one (`%s`): the last line of an included file without "
                      "a final newline is glued to the next line of the including file, and every later line is reported one line too early" % ct[:80])
+        # truth table (round 20): with the line unterminated, the source line without a line feed and the include stack not empty, the
+        # condition must hold whatever the other atoms are - an include disjunct narrowed by another test (`!asm && ..`) withholds the
+        # newline for some included files
+        bad = _lt_narrowed(n["cond"])
+        res.inst("T-LINE-TERMINATED:process:%d:truth-table" % sites, True, {"free-atoms": bad[1]})
+        if covers_includes and bad[0] is not None:
+            res.fail("T-LINE-TERMINATED:process:include-narrowed", facts.where(fn, n),
+                     "inside an included file whose last line lacks a newline the condition `%s` is false when %s: that line is glued to the next "
+                     "output line while both keep their map entry, and every later line is reported one line too early" % (ct[:110], bad[0]))
     if sites == 0:
         raise AnchorMissing("the conditional newline after a text line was not found in process()")
+
+
+def _lt_atoms(e, out):
+    k = e.get("k")
+    if k == "binary" and e["op"] in ("&&", "||"):
+        _lt_atoms(e["l"], out); _lt_atoms(e["r"], out)
+    elif k == "unary" and e["op"] == "!":
+        _lt_atoms(e["e"], out)
+    elif k == "paren":
+        _lt_atoms(e["e"], out)
+    else:
+        t = expr_text(e)
+        if t not in out:
+            out.append(t)
+
+
+def _lt_fixed(t):
+    """value of an atom in the situation judged: unterminated line, no line feed in the source, inside an include"""
+    if "ends_with" in t:
+        return False
+    if t == "has_lf":
+        return False
+    if "includes_stack" in t:
+        if t.endswith(".is_empty()"):
+            return False
+        if re.search(r"\.len\(\)(>0|!=0|>=1)\)?$", t):
+            return True
+        if re.search(r"\.len\(\)(==0|<1)\)?$", t):
+            return False
+        if t.endswith(".last().is_some()"):
+            return True
+        if t.endswith(".last().is_none()"):
+            return False
+    return None
+
+
+def _lt_eval(e, val):
+    k = e.get("k")
+    if k == "binary" and e["op"] == "&&":
+        return _lt_eval(e["l"], val) and _lt_eval(e["r"], val)
+    if k == "binary" and e["op"] == "||":
+        return _lt_eval(e["l"], val) or _lt_eval(e["r"], val)
+    if k == "unary" and e["op"] == "!":
+        return not _lt_eval(e["e"], val)
+    if k == "paren":
+        return _lt_eval(e["e"], val)
+    return val[expr_text(e)]
+
+
+def _lt_narrowed(cond):
+    import itertools
+    atoms = []
+    _lt_atoms(cond, atoms)
+    fixed = {a: _lt_fixed(a) for a in atoms}
+    free = [a for a in atoms if fixed[a] is None]
+    if len(free) > 8:
+        return ("more than eight free atoms", free)
+    for combo in itertools.product((False, True), repeat=len(free)):
+        val = dict(fixed)
+        val.update(dict(zip(free, combo)))
+        if not _lt_eval(cond, val):
+            return (", ".join("%s is %s" % (a, str(v).lower()) for a, v in zip(free, combo)) or "the include stack is not empty", free)
+    return (None, free)
 
 
 # ----------------------------------------------------------------------------- C02 (redundant loads and the flags they set)
